@@ -735,3 +735,51 @@ Example depth1_mate_interval :
   rootiv nat Depth1Mate.unchecked Depth1Mate.checked Depth1Mate.play Depth1Mate.standpat Depth1Mate.safe
          2 0%nat (Depth1Mate.checked 0%nat) = (9500, 29765).
 Proof. vm_compute. reflexivity. Qed.
+
+(* ------------------------------------------------------------------------------------------ *)
+(* Two chess positions (model functions evaluated by vm_compute)                                 *)
+(* ------------------------------------------------------------------------------------------ *)
+From Coq Require Import String Ascii.
+From Chess Require Import Model.Fen.
+
+Fixpoint fen_text (s : string) : list N :=
+  match s with EmptyString => nil | String c r => N_of_ascii c :: fen_text r end.
+
+Definition engine_score (p : result game) (depth : nat) : option Z :=
+  match p with
+  | Ok g => match root g (fresh_state tempty (-1) true) depth with
+            | (Done (_, s, _), _) => Some s
+            | _ => None
+            end
+  | _ => None
+  end.
+
+(* (reference value, blocked flag, interval, range condition, separation condition of AlphaBeta.v) *)
+Definition reference_data (p : result game) (depth : nat) :=
+  match p with
+  | Ok g => Some (chess_rootref QFUEL depth g (root_moves g),
+                  chess_rootiv depth g (root_moves g),
+                  chess_rootok depth g (root_moves g),
+                  chess_roottree depth g (root_moves g))
+  | _ => None
+  end.
+
+(* White mates in one (Qg7 or Qf8).  At depth 2 the mated side is a depth-1 node: all its moves
+   are answered by a king capture in quiescence.  The table-less engine scores 32768-3000-3,
+   the reference of Spec/Negamax.v scores the king-less stand-pat; no blocked node is flagged.
+   So C09 in the form "engine = rootref on trees without blocked node" is false in chess; the
+   root interval is [20920, 29765], not a point, so [root_exact_iv] does not apply (as it must). *)
+Example chess_mate_in_one_differs :
+  let p := import (fen_text "7k/5Q2/6K1/8/8/8/8/8 w - - 0 1") in
+  engine_score p 2 = Some 29765 /\
+  reference_data p 2 = Some (20920, false, (20920, 29765), true, false).
+Proof. vm_compute. split; reflexivity. Qed.
+
+(* Rooks facing each other: the depth-2 tree contains king captures (pinned-rook and king moves
+   generated at the depth-1 nodes), so the separation condition of AlphaBeta.v fails, but the
+   root interval is a point and all hypotheses of [root_exact_iv_fresh] hold; the scores agree. *)
+Example chess_interval_condition_holds :
+  let p := import (fen_text "4k3/4r3/8/8/8/8/4R3/4K3 w - - 0 1") in
+  engine_score p 2 = Some (-30) /\
+  reference_data p 2 = Some (-30, false, (-30, -30), true, false).
+Proof. vm_compute. split; reflexivity. Qed.
